@@ -13,12 +13,16 @@ import (
 )
 
 // C09 part B: histories that contain a *failed* operation. From every state of the
-// closure, every Insert/Delete runs with each of its Persist.Load calls failing; whatever
+// closure, every Insert/Delete runs with each of its Persist.Load calls failing (struct keys: each
+// marshal call, i.e. each key-layer / key-order computation; counting comparator: each KeyCompare call); whatever
 // the operation returned, the fault then clears and the tree is persisted: the persisted
 // version must still satisfy the shape invariants (in particular the recorded size).
 func c09FaultHistories(run *report.Run) {
 	B, M := ref.FormatBinary, ref.FormatMarshaler
-	cfgs := []*world.Config{world.UintCfg(2, urange(1, 5), 1, B, "none"), world.UintCfg(4, ulist(1, 2, 3, 4, 5, 8), 1, M, "none"), world.LKeyCfg(2, []uint8{0, 2, 0, 1, 0}, 1, B, "none")}
+	cc := func(c *world.Config) *world.Config { c.CustomCompare = true; c.Name += "/countingcompare"; return c }
+	cfgs := []*world.Config{world.UintCfg(2, urange(1, 5), 1, B, "none"), world.UintCfg(4, ulist(1, 2, 3, 4, 5, 8), 1, M, "none"), world.LKeyCfg(2, []uint8{0, 2, 0, 1, 0}, 1, B, "none"),
+		// struct keys: layers and order go through the marshaler, which can fail in the middle of an operation
+		world.StructCfg(4, []uint8{1, 0, 0, 0, 0, 0}, B, "none"), world.StructCfg(2, []uint8{0, 1, 0, 2}, M, "none"), cc(world.UintCfg(2, urange(1, 4), 1, M, "none"))}
 	if run.Thorough() {
 		cfgs = append(cfgs, world.UintCfg(2, urange(0, 8), 1, B, "none"), world.UintCfg(3, ulist(1, 2, 3, 4, 6, 9), 1, B, "none"))
 	}
@@ -38,23 +42,54 @@ func c09FaultHistories(run *report.Run) {
 					t := w.Trees[0]
 					do := func(t *mast.Mast) error {
 						if kind == "Insert" {
-							return t.Insert(ctx, cfg.Keys[k], cfg.Vals[0])
+							return t.Insert(ctx, cfg.FreshKey(k), cfg.FreshVal(0))
 						}
-						return t.Delete(ctx, cfg.Keys[k], cfg.Vals[0])
+						return t.Delete(ctx, cfg.FreshKey(k), cfg.FreshVal(0))
 					}
 					w.Store.ResetLog()
+					w.Cmp.Reset()
+					w.Msh.Reset()
 					guardRes(func() error { return do(t) })
-					n := w.Store.NLoad
-					for i := 0; i < n; i++ {
+					type fault struct {
+						kind string
+						i    int
+					}
+					var faults []fault
+					for i := 0; i < w.Store.NLoad; i++ {
+						faults = append(faults, fault{"Load", i})
+					}
+					if cfg.KS.Name == "struct" {
+						for i := 0; i < w.Msh.N; i++ {
+							faults = append(faults, fault{"Marshal", i})
+						}
+					}
+					if cfg.CustomCompare {
+						for i := 0; i < w.Cmp.N; i++ {
+							faults = append(faults, fault{"KeyCompare", i})
+						}
+					}
+					for _, f := range faults {
+						i := f.i
 						w, err := explore.Replay(cfg, hist, true)
 						if err != nil {
 							return
 						}
 						t := w.Trees[0]
 						w.Store.ResetLog()
-						w.Store.FailLoadAt = map[int]bool{i: true}
+						w.Cmp.Reset()
+						w.Msh.Reset()
+						switch f.kind {
+						case "Load":
+							w.Store.FailLoadAt = map[int]bool{i: true}
+						case "Marshal":
+							w.Msh.FailAt = map[int]bool{i: true}
+						case "KeyCompare":
+							w.Cmp.FailAt = map[int]bool{i: true}
+						}
 						r := guardRes(func() error { return do(t) })
 						w.Store.ClearFaults()
+						w.Cmp.Reset()
+						w.Msh.Reset()
 						atomic.AddInt64(&evals, 1)
 						if r.Panic != nil {
 							continue
@@ -74,7 +109,7 @@ func c09FaultHistories(run *report.Run) {
 						if bad := ref.CheckShape(cfg.KS, sn, cfg.BF, int(root.Height), root.Size); len(bad) > 0 {
 							clause := bad[0][:strings.Index(bad[0], ":")]
 							acc.add(cfg, "C09", []explore.Finding{{Sig: "C09|after-failed-" + kind + "|" + clause, What: "a version persisted after an operation failed on a store fault breaks shape invariant '" + clause + "'", Detail: strings.Join(bad, "; ")}},
-								append(cfg.DescribeHist(hist), fmt.Sprintf("%s(%v) with its Load #%d failing -> %v; then MakeRoot", kind, cfg.Keys[k], i, r)))
+								append(cfg.DescribeHist(hist), fmt.Sprintf("%s(%v) with its %s #%d failing -> %v; then MakeRoot", kind, cfg.Keys[k], f.kind, i, r)))
 						}
 					}
 				}
